@@ -46,12 +46,21 @@ def make_items():
     items.append(('launch', ((0x2800, 1, 's'), (0x800, 0, 'a')), None,
                   [E.ev('DBG_DYLD_TIMING_LAUNCH_EXECUTABLE', 1, (0, 0x4000, 0, 0)), img_event(0x2800, 1, kind='DYLD_uuid_shared_cache_a'),
                    img_event(0x800, 0), E.ev('DBG_DYLD_TIMING_LAUNCH_EXECUTABLE', 2, (0, 0, 0, 0))]))
+    # shared cache BELOW an image of the same launch, and between two images
+    items.append(('launch', ((0x3000, 0, 'a'), (0x1800, 1, 's')), None,
+                  [E.ev('DBG_DYLD_TIMING_LAUNCH_EXECUTABLE', 1, (0, 0x4000, 0, 0)), img_event(0x3000, 0), img_event(0x1800, 1, kind='DYLD_uuid_shared_cache_a'),
+                   E.ev('DBG_DYLD_TIMING_LAUNCH_EXECUTABLE', 2, (0, 0, 0, 0))]))
+    items.append(('launch', ((0x1000, 0, 'a'), (0x3000, 1, 'a'), (0x2001, 1, 's')), None,
+                  [E.ev('DBG_DYLD_TIMING_LAUNCH_EXECUTABLE', 1, (0, 0x4000, 0, 0)), img_event(0x1000, 0), img_event(0x3000, 1),
+                   img_event(0x2001, 1, kind='DYLD_uuid_shared_cache_a'), E.ev('DBG_DYLD_TIMING_LAUNCH_EXECUTABLE', 2, (0, 0, 0, 0))]))
     for n in (0, 1, 3, 4, 5, 9):
         for k in (0, 4, 8):
             items.append(('samp', n, tuple(WORDS[:k]) if k != 8 else tuple(WORDS[3:11]), None))
     items.append(('samp', 14, tuple(WORDS), None))
     items.append(('samp-noflag', 3, tuple(WORDS[:4]), None))
     items.append(('samp-tid2', 3, tuple(WORDS[4:8]), None))
+    # other records of the same thread between the header and the data records / between two data records
+    items.append(('samp-mixed', 7, tuple(WORDS[2:10]), None))
     return items
 
 
@@ -65,6 +74,10 @@ def events_of(it):
         return sample_events(it[1], it[2])
     if it[0] == 'samp-noflag':
         return sample_events(it[1], it[2], flags=1)
+    if it[0] == 'samp-mixed':
+        evs = sample_events(it[1], it[2], flags=9)
+        # PERF_Event S, UHdr, [THD_Data], UData, [unrelated], UData, PERF_Event E
+        return evs[:2] + [E.ev('PERF_THD_Data', 0, (10, 1, 0, 1))] + evs[2:3] + [E.ev('MACH_WAIT', 0, (0x10, 0, 0, 0))] + evs[3:]
     return sample_events(it[1], it[2], tid=2)
 
 
@@ -107,7 +120,7 @@ def ref(seq):
             for a, u, kind in sorted(it[1], key=lambda x: (x[2] != 'a', x[0])):
                 if all(x != a for x, _ in imgs):
                     imgs.append((a, uuid.UUID(bytes=U[u])))
-        elif it[0] in ('samp', 'samp-tid2'):
+        elif it[0] in ('samp', 'samp-tid2', 'samp-mixed'):
             words = list(it[2]) + [0] * ((-len(it[2])) % 4)
             frames = words[:it[1]]
             fr = []
@@ -159,10 +172,10 @@ def judge_permutation(addr_uuid_set, perm, sample_idx):
 class C15(Check):
     pid = 'C15'
     level = 'model_checking'
-    rule = ('all histories of <=3 (quick) / <=4 (thorough) items over 31 item kinds: image announcements (4 addresses incl. adjacent '
-            '0x2000/0x2001, x 2 uuids so that re-announcements with another identity occur), 2 launch windows with nested '
-            'map/shared-cache records, samples with header count {0,1,3,4,5,9,14} x {0,1,2(+)} data records whose words are a-1, a, '
-            'a+1 for every load address plus 0 and 2^64-1, a sample without the user-stack flag, a sample on a second thread; '
+    rule = ('all histories of <=3 (quick) / <=4 (thorough) items over 34 item kinds: image announcements (4 addresses incl. adjacent '
+            '0x2000/0x2001, x 2 uuids so that re-announcements with another identity occur), 4 launch windows with nested '
+            'map/shared-cache records (cache above, below and between the images), samples with header count {0,1,3,4,5,9,14} x {0,1,2(+)} data records whose words are a-1, a, '
+            'a+1 for every load address plus 0 and 2^64-1, a sample without the user-stack flag, a sample on a second thread, a sample with thread-data and unrelated records between its header and data records; '
             'through TracesParser+CallstacksParser (all histories) and through PyKdebugParser.callstacks on a v2 dump (histories '
             '<=2 quick / <=3 thorough). Plus all alternating histories announcement-sample-announcement-sample (depth 4) over every announcement and the samples with >=4 frames. Plus: for every set of <=4 distinct images all permutations of announcement order give '
             'identical attribution. Reference: linear scan over the list of announced (address, uuid), first identity wins. '
@@ -202,7 +215,7 @@ class C15(Check):
             # announcement, sample, announcement, sample (depth 4) - a resolution remembered from the first sample must not survive
             # the second announcement
             imgs = [i for i, it in enumerate(ITEMS) if it[0] in ('img', 'launch')]
-            samps = [i for i, it in enumerate(ITEMS) if it[0] == 'samp' and it[1] >= 4 and len(it[2]) >= 4] + \
+            samps = [i for i, it in enumerate(ITEMS) if it[0] in ('samp', 'samp-mixed') and it[1] >= 4 and len(it[2]) >= 4] + \
                     [i for i, it in enumerate(ITEMS) if it[0] == 'samp-tid2']
             for s1 in samps:
                 for i2 in imgs:
